@@ -1,4 +1,4 @@
 SPECIFICATION Spec
 CONSTANTS Procs = {1, 2, 3} OpsPer = 1
 INVARIANTS MutualExclusion LookupSeesLatest TzCanonical
-CHECK_DEADLOCK FALSE
+CHECK_DEADLOCK TRUE
